@@ -130,6 +130,32 @@ pub fn run(mut ctx0: Ctx) {
             }
         }
     }
+    // payload pipelined with the head and large enough to fill the 1 KiB head buffer (exactly, by one byte
+    // more, several times over): the bytes of the read that completed the head are the first payload bytes
+    for (k, h) in heads.iter().enumerate() {
+        if h.len() >= 1024 || (!ctx.thorough() && k % 3 != 0) {
+            continue;
+        }
+        let room = 1024 - h.len();
+        for plen in [room - 1, room, room + 1, 1500, 3000, 9000] {
+            let mut stream = h.clone();
+            let p = ctx.rng.bytes(plen);
+            stream.extend(&p);
+            let n = stream.len();
+            jobs.push(("whole_large_payload".into(), vec![stream.clone()], Some(h.len())));
+            for c in [h.len() - 2, h.len() - 1, h.len(), h.len() + 1, 1023, 1024, 1025] {
+                if c > 0 && c < n {
+                    jobs.push(("large_payload_one_cut".into(), split_at(&stream, &[c]), Some(h.len())));
+                }
+            }
+            for _ in 0..(if ctx.thorough() { 12 } else { 3 }) {
+                let mut cuts: Vec<usize> = (0..ctx.rng.range(2, 4)).map(|_| ctx.rng.range(1, n as u64 - 1) as usize).collect();
+                cuts.sort();
+                cuts.dedup();
+                jobs.push(("large_payload_multi_cut".into(), split_at(&stream, &cuts), Some(h.len())));
+            }
+        }
+    }
     for (class, h) in invalid_heads() {
         jobs.push((format!("invalid_{}", class), vec![h.clone()], None));
         for _ in 0..6 {
